@@ -65,6 +65,8 @@ func TestC16NestedCRDT(t *testing.T) {
 		buf := rapid.SampledFrom([]int{1, 2, 5}).Draw(t, "buffer")
 		d, c := draws(t)
 		s := sysbind.NewNestedCRDT(n, buf, d, c)
+		s.Store.RefuseWritePct = rapid.SampledFrom([]int{0, 0, 10, 30}).Draw(t, "write-refusals")
+		s.Store.RefusePct = rapid.SampledFrom([]int{0, 0, 5, 20}).Draw(t, "precommit-refusals")
 		if err := s.Sim.Start(); err != nil {
 			t.Fatalf("INCONCLUSIVE: %v", err)
 		}
